@@ -132,10 +132,12 @@ theorem create_takes_written_file_whole (kvs : List (Bytes × KVal)) (ts : List 
     (halign : alignmentIn kvs = .ok align) (hpos : 0 < align)
     (hoff : ∀ o ∈ offsets false align ts 0, o < two64)
     (henc : encode false kvs ts = .ok file) (hlen : file.length < two63) :
-    ∃ d, decode file 0 none = .ok d ∧ ggufLayers file = some (.ok [⟨0, file.length, true, d⟩]) := by
+    ∃ d m, decode file 0 none = .ok d ∧ ggufLayers file = some (.ok [⟨0, file.length, true, m, d⟩]) := by
   have h := OllamaVerif.Gguf.decode_encode kvs ts file align 0 hsorted hnodup hnoparam hwkv hwt hnk hnt halign hpos hoff henc hlen
   simp only [] at h
-  exact ⟨_, h, ggufLayers_single file none Guards.tree _ _ h rfl (by unfold two63 at *; omega)⟩
+  obtain ⟨m, hm⟩ := mediaType_all (kvs.map (fun kv => (kv.1, toVal (if (0 : Int) = 0 then 1024 else 0) kv.2)) ++
+    [(keyParamCount, .scalar 10 (sumParameters (infosOf ts (offsets false align ts 0))))])
+  exact ⟨_, m, h, ggufLayers_single file none Guards.tree _ _ m h rfl (by unfold two63 at *; omega) hm⟩
 
 /-- non-vacuity of `decode_encode`: two keys (one of them the alignment) and three tensors -/
 def kvEx : List (Bytes × KVal) := [(keyAlignment, .u32 32)]
